@@ -811,19 +811,65 @@ where
 
     /// Remove a key from the trie
     pub fn remove(&mut self, key: &[u8]) -> Result<bool> {
-        match &mut self.storage {
+        let removed = match &mut self.storage {
             TrieStorage::Patricia { nodes, edge_data, compressed_paths } => {
-                let removed = Self::remove_patricia_actual(nodes, edge_data, compressed_paths, key)?;
-                if removed {
-                    self.stats.num_keys = self.stats.num_keys.saturating_sub(1);
+                Self::remove_patricia_actual(nodes, edge_data, compressed_paths, key)?
+            }
+            TrieStorage::DoubleArray { base, check, .. } => {
+                // Walk exactly like contains_double_array, then clear the terminal bit.
+                // The state itself stays allocated (same policy as Patricia inner nodes).
+                const TERMINAL_BIT: u32 = 0x8000_0000;
+                const VALUE_MASK: u32 = 0x7FFF_FFFF;
+                let mut state = 0u32;
+                let mut found = !base.is_empty();
+                if found {
+                    for &symbol in key {
+                        let next = (base[state as usize] & VALUE_MASK).saturating_add(symbol as u32);
+                        if (next as usize) < check.len() && check[next as usize] == state {
+                            state = next;
+                        } else {
+                            found = false;
+                            break;
+                        }
+                    }
                 }
-                Ok(removed)
+                if found && (base[state as usize] & TERMINAL_BIT) != 0 {
+                    base[state as usize] &= !TERMINAL_BIT;
+                    true
+                } else {
+                    false
+                }
             }
-            _ => {
-                // For other storage types, return false for now
-                Ok(false)
+            TrieStorage::CompressedSparse { sparse_nodes, .. } => {
+                let mut state: StateId = 0;
+                let mut found = true;
+                for &symbol in key {
+                    match sparse_nodes.get(&state).and_then(|n| n.children.get(&symbol)) {
+                        Some(&next) => state = next,
+                        None => {
+                            found = false;
+                            break;
+                        }
+                    }
+                }
+                match sparse_nodes.get_mut(&state) {
+                    Some(node) if found && node.is_final => {
+                        node.is_final = false;
+                        true
+                    }
+                    _ => false,
+                }
             }
+            // LOUDS node ids are byte offsets into the record list (callers such as
+            // NestLoudsTrieBlobStore keep them); dropping a record would shift them.
+            TrieStorage::Louds { .. } => false,
+            // Nothing is ever stored by the critical-bit strategy
+            TrieStorage::CriticalBit { .. } => false,
+        };
+        if removed {
+            self.stats.num_keys = self.stats.num_keys.saturating_sub(1);
         }
+        Ok(removed)
     }
 
     /// Get the number of keys in the trie
